@@ -377,7 +377,10 @@ def run_fit(data, weights, delta, delta0, method):
         warnings.simplefilter("ignore")
         try:
             dist = cls(f_delta=delta) if delta is not None else cls(delta=delta0)
-            dist.fit(np.array(data, dtype=float), method=method,
+            arr = np.array(data, dtype=float)
+            if len(arr) and np.all(arr == np.round(arr)) and np.max(np.abs(arr)) < 2 ** 50:
+                arr = arr.astype(np.int64)  # whole-number samples are handed over as an integer array
+            dist.fit(arr, method=method,
                      weights=(np.array(weights, dtype=float) if isinstance(weights, list) else weights))
         except Exception as e:  # noqa: BLE001
             return {"err": type(e).__name__, "msg": str(e)[:200]}
@@ -419,6 +422,8 @@ def gen_fits(rng, count, nmax):
             x = np.maximum(np.round(x, int(rng.choice([1, 2]))), 0.0)  # ties (and rounding to 0)
         if flavour in (2, 3):
             x[rng.choice(len(x), size=int(rng.integers(1, max(2, len(x) // 20))), replace=False)] = 0.0
+        if k % 9 == 4:
+            x = np.round(x * (20.0 / max(np.median(x), 1e-9)))  # whole numbers (counts, whole seconds): integer dtype
         if np.count_nonzero(x) < 10 or len(np.unique(x[x != 0])) < 5:
             x = random_sample(rng, n)
         sp = specs[k % len(specs)]
